@@ -598,3 +598,153 @@ func keyMapRound(w *W, idx int) {
 		w.Sample(map[string]any{"round": idx, "workers": workers, "ops_per_worker": per, "key_operations": ops, "live_keys_at_end": len(seen)})
 	}
 }
+
+// ---------------------------------------------------------------------------------------------
+// C19: a trigger that stays registered is called exactly once per committed store, also while
+// other triggers on the same column are created and dropped beside the commits
+
+// triggerDropDuringCommit forces the one schedule a random drop rarely hits: the commit is inside
+// the callback of the first trigger of a column when another goroutine drops that trigger; the
+// triggers behind it must still be called exactly once for that store.
+func triggerDropDuringCommit(w *W, idx int, caseID string) {
+	c := stressCollection(64, false)
+	defer c.Close()
+	var off uint32
+	c.Query(func(txn *column.Txn) error {
+		off, _ = txn.Insert(func(r column.Row) error { r.SetInt64("m", 0); return nil })
+		return nil
+	})
+	var k1, k2 int32
+	entered, dropped := make(chan struct{}), make(chan struct{})
+	first := true
+	c.CreateTrigger("t0", "a", func(r column.Reader) {
+		if first {
+			first = false
+			close(entered)
+			<-dropped // the commit is parked here while t0 is being dropped
+		}
+	})
+	c.CreateTrigger("k1", "a", func(r column.Reader) { atomic.AddInt32(&k1, 1) })
+	c.CreateTrigger("k2", "a", func(r column.Reader) { atomic.AddInt32(&k2, 1) })
+	go func() {
+		<-entered
+		c.DropTrigger("t0")
+		close(dropped)
+	}()
+	c.QueryAt(off, func(r column.Row) error { r.SetInt64("a", 42); return nil })
+	w.Stat("forced_drop_during_commit", 1)
+	if a, b := atomic.LoadInt32(&k1), atomic.LoadInt32(&k2); a != 1 || b != 1 {
+		w.Violate(idx, caseID, fmt.Sprintf("[trigger] one committed store while the first trigger of the column was dropped from another goroutine mid-commit: the two triggers that stayed registered were called %d and %d times", a, b), "",
+			map[string]any{"idx": idx, "race": true, "engine": "E3"})
+	}
+}
+
+func triggerRound(w *W, idx int) {
+	caseID := fmt.Sprintf("E3:trigger-beside-drops:round%d", idx)
+	w.Begin(idx, caseID)
+	triggerDropDuringCommit(w, idx, caseID)
+	c := stressCollection(1000, false)
+	defer c.Close()
+	hook := &stressHook{delayPct: 25, seed: w.Seed + int64(idx)}
+	hook.install(c)
+	defer hook.remove()
+	const rows = 20000 // two blocks
+	c.Query(func(txn *column.Txn) error {
+		for i := 0; i < rows; i++ {
+			txn.Insert(func(r column.Row) error { r.SetInt64("m", 0); return nil })
+		}
+		return nil
+	})
+	var seen sync.Map // value -> *int32 number of callbacks
+	var callbacks int64
+	keep := func(r column.Reader) {
+		if r.IsDelete() {
+			return
+		}
+		atomic.AddInt64(&callbacks, 1)
+		n := new(int32)
+		if prev, loaded := seen.LoadOrStore(int64(r.Int()), n); loaded {
+			n = prev.(*int32)
+		}
+		atomic.AddInt32(n, 1)
+	}
+	c.CreateTrigger("drop0", "a", func(column.Reader) {})
+	c.CreateTrigger("keep", "a", keep)
+	c.CreateTrigger("drop1", "a", func(column.Reader) {})
+	var left int32 = 6
+	per := scale(w, 800, 2500)
+	var committed sync.Map // value -> true
+	var aborted sync.Map
+	var stores, drops int64
+	var fns []func()
+	for wi := 0; wi < 6; wi++ {
+		wi := wi
+		fns = append(fns, func() {
+			defer atomic.AddInt32(&left, -1)
+			rng := rngFor(w.Seed, 62, idx, wi)
+			for n := 0; n < per; n++ {
+				abort := rng.Intn(10) == 0
+				var vals []int64
+				err := c.Query(func(txn *column.Txn) error {
+					for j := 0; j < 4; j++ {
+						v := int64(wi+1)<<40 | int64(n)<<4 | int64(j)
+						vals = append(vals, v)
+						txn.QueryAt(uint32(rng.Intn(rows)), func(r column.Row) error { r.SetInt64("a", v); return nil })
+					}
+					if abort {
+						return errAbort
+					}
+					return nil
+				})
+				for _, v := range vals {
+					if err == nil {
+						committed.Store(v, true)
+						atomic.AddInt64(&stores, 1)
+					} else {
+						aborted.Store(v, true)
+					}
+				}
+			}
+		})
+	}
+	fns = append(fns, func() {
+		for i := 0; atomic.LoadInt32(&left) > 0; i++ {
+			name := fmt.Sprintf("drop%d", i%2)
+			c.DropTrigger(name)
+			c.CreateTrigger(name, "a", func(column.Reader) {})
+			atomic.AddInt64(&drops, 1)
+			time.Sleep(50 * time.Microsecond)
+		}
+	})
+	parallel(fns...)
+	bad := ""
+	committed.Range(func(k, _ any) bool {
+		n, ok := seen.Load(k)
+		switch {
+		case !ok:
+			bad = fmt.Sprintf("committed store of value %d to the watched column was never reported to the trigger that stayed registered", k)
+		case atomic.LoadInt32(n.(*int32)) != 1:
+			bad = fmt.Sprintf("committed store of value %d was reported %d times to the trigger that stayed registered", k, atomic.LoadInt32(n.(*int32)))
+		}
+		return bad == ""
+	})
+	if bad == "" {
+		aborted.Range(func(k, _ any) bool {
+			if _, ok := seen.Load(k); ok {
+				bad = fmt.Sprintf("value %d of a rolled-back transaction was reported to the trigger", k)
+			}
+			return bad == ""
+		})
+	}
+	w.Stat("stress_committed_stores", stores)
+	w.Stat("stress_trigger_callbacks", atomic.LoadInt64(&callbacks))
+	w.Stat("stress_trigger_drops_beside_commits", drops)
+	w.Stat("stress_rounds", 1)
+	w.Eval(hashOf("trig", idx, stores), stores > 100)
+	if bad != "" {
+		w.Violate(idx, caseID, "[trigger] "+bad, "", map[string]any{"idx": idx, "race": true, "engine": "E3"})
+	}
+	if idx == 0 {
+		w.Sample(map[string]any{"round": idx, "writers": 6, "txns_per_writer": per, "committed_stores": stores, "callbacks": callbacks, "drops": drops})
+	}
+}
